@@ -22,6 +22,9 @@ inductive Loc
   | line (path : String) (line : Int)      -- LineLocation(path, line)
   | func (path : String) (name : String)   -- FunctionLocation(path, method_name)
   | nosource (path : String)               -- FunctionLocation(path, None) on a file whose source is not available
+  | nameless (path : String) (blocks : List (String × Int × Int))
+    -- FunctionLocation(path, None) on a file with source; `blocks` = what inspect.getsourcelines gives for the
+    -- frames of that file: (co_name, first line, number of lines) of each code scope (absent = it raises)
 deriving DecidableEq, Repr
 
 /-- a tracepoint (from the service or registered in code): where, and what to do there -/
@@ -43,6 +46,8 @@ def Loc.atLocation (l : Loc) (event file : String) (lineno : Int) (function : St
   | Loc.line p n => some (lineAtLocation p n event file lineno function)
   | Loc.func p f => some (funcAtLocation p f event file lineno function)
   | Loc.nosource p => funcAtLocationNoSource p event file lineno function
+  | Loc.nameless p bl =>
+    funcAtLocationNameless p ((bl.find? (fun b => b.1 == function)).map (fun b => b.2)) event file lineno function
 
 /-- `trigger.at_location(event, file, line, function, frame)` with the values `location_from_event` computes -/
 def Loc.check (l : Loc) (ev : Event) : Option Bool :=
@@ -51,6 +56,18 @@ def Loc.check (l : Loc) (ev : Event) : Option Bool :=
 
 /-- the location says "here" -/
 def Loc.matches (l : Loc) (ev : Event) : Bool := l.check ev == some true
+
+/-- every method location has a name (the only method tracepoints the property speaks of) -/
+def Loc.named : Loc → Bool
+  | Loc.nameless _ _ => false
+  | _ => true
+
+/-- a nameless location that says "here" stores the function name of the event: from then on it is the named
+    location of that function (`self.__function_name = function_name`) — the installed triggers are state -/
+def Loc.settle (l : Loc) (ev : Event) : Loc :=
+  match l with
+  | Loc.nameless p _ => if l.matches ev then Loc.func p ev.func else l
+  | _ => l
 
 def Tp.build (tp : Tp) : Trig := ⟨tp.loc, tp.actions⟩
 
@@ -73,6 +90,19 @@ def traceCall (cfg : List Trig) (slot : Option (List Ctx)) (ev : Event) : Option
 /-- a thread's run -/
 def run (cfg : List Trig) (slot : Option (List Ctx)) (evs : List Event) : Option (List Ctx) × List Eff :=
   runWith (cfg.length : Int) (actionsFor cfg) slot evs
+
+def AllNamed (cfg : List Trig) : Prop := ∀ t ∈ cfg, t.loc.named = true
+
+def settleCfg (cfg : List Trig) (ev : Event) : List Trig := cfg.map (fun t => { t with loc := t.loc.settle ev })
+
+/-- a thread's run with the installed triggers as state (nameless locations settle); equal to `run` when every
+    method location has a name -/
+def runS (cfg : List Trig) (slot : Option (List Ctx)) : List Event → (Option (List Ctx) × List Eff) × List Trig
+  | [] => ((slot, []), cfg)
+  | ev :: evs =>
+    let r1 := traceCall cfg slot ev
+    let r2 := runS (settleCfg cfg ev) r1.1 evs
+    ((r2.1.1, r1.2 ++ r2.1.2), r2.2)
 
 /-- does the handler push a context at this event under this configuration? -/
 def opens (cfg : List Trig) (ev : Event) : Bool := opensAt (cfg.length : Int) (actionsFor cfg) ev
